@@ -121,6 +121,25 @@ def run(ctx):
                 try: res.append(json.loads(l))
                 except Exception: pass
         return res
+    # regression corpus of whole packages that must be built in the RELEASE profile
+    rel_dirs = []
+    for cdir in sorted(glob.glob(os.path.join(ROOT, "corpus", "C17", "*", "Forc.toml"))):
+        src = os.path.dirname(cdir); dst = os.path.join(base, "rel_" + os.path.basename(src))
+        shutil.copytree(src, dst)
+        t = open(os.path.join(dst, "Forc.toml")).read()
+        t = re.sub(r'std\s*=\s*\{[^}]*\}', 'std = { path = "%s/sway-lib-std" }' % REPO, t)
+        open(os.path.join(dst, "Forc.toml"), "w").write(t)
+        rel_dirs.append(dst)
+    if rel_dirs:
+        rc, o = rust.run(binp, ["--release"] + rel_dirs, timeout=1800)
+        for l in o.split("\n"):
+            if l.startswith("{"):
+                try: r = json.loads(l)
+                except Exception: continue
+                if r.get("status") == "panic":
+                    slug = re.sub(r"[^a-z]+", "-", re.sub(r"\d+", "", r.get("msg", "").lower()))[:48].strip("-")
+                    ctx.violation("panic@%s#%s" % (r.get("site", "?").rsplit(":", 1)[0], slug), {"package": r["pkg"], "profile": "release", "panic": r},
+                                  "compiler panicked (release profile) at %s: %s" % (r.get("site"), r.get("msg", "")[:200]))
     chunks = [dirs[i::NCPU] for i in range(NCPU) if dirs[i::NCPU]]
     with cf.ThreadPoolExecutor(max_workers=NCPU) as ex:
         results = [r for rs in ex.map(one, chunks) for r in rs]
